@@ -98,6 +98,8 @@ class Batch:
                 elif proj == "paths":
                     # the implementation joins the tokens without separator ("OLS"); the model with dots ("O.L.S")
                     b = {"ok": [[k, q.replace(".", "")] for k, q in b["ok"]]}
+                elif proj == "regcfg":
+                    b = {"ok": {"types": b["ok"]["types"], "replaces": sorted(b["ok"]["replaces"])}}
                 elif proj == "closure":
                     b = {"ok": [[x - 1 for x in g] for g in b["ok"]]}
                 elif proj == "strtype":
@@ -659,4 +661,18 @@ def stage_paths(batch, fields):
 
     ans = impl_call(run)
     batch.add({"op": "paths", "in": fields}, ans, {"fields": fields, "project": "paths"})
+    return ans
+
+
+def stage_remove_by_name(batch, kinds, dt, name):
+    registry = make_registry(kinds, datetime=dt)
+    before = conv.reg_cfg(registry)
+
+    def run():
+        registry.remove_by_name(name)
+        c = conv.reg_cfg(registry)
+        return {"types": c["types"], "replaces": c["replaces"]}
+
+    ans = impl_call(run)
+    batch.add({"op": "removebyname", "reg": before, "name": name}, ans, {"kinds": kinds, "name": name, "project": "regcfg"})
     return ans
